@@ -212,6 +212,9 @@ fn sigma15(cfg: &Cfg) -> Vec<Event> {
         Event::Process(raw_frame(SRC, a, T_PCI, &[0x14, 0x14, 1, 2, 3])),
         Event::Process(flip(good_uuid.clone(), good_uuid.len() - 1, 0x80)),
         Event::Process(forge_response(SRC, a, 0, 0x03, 0, &[0xEE; 16])),
+        // the application also *encodes* with the same context between requests
+        Event::Encode { call: EncCall::RespUuid { cc: 0, uuid: [0xCC; 16] }, dst: 0x31 },
+        Event::Encode { call: EncCall::RespMsgTypes { cc: 0, types: vec![0xBB; 30] }, dst: 0x32 },
     ]
 }
 
@@ -231,11 +234,11 @@ pub fn run_c15(run: &mut Run) {
     let thorough = run.tier.thorough();
     let depth = if thorough { 6 } else { 5 };
     run.rule = format!(
-        "message-type lists of every length 0..=30 x byte lanes x 3 backgrounds; UUID byte lanes x 4 backgrounds installed then queried; alphabet of 13 events (3 set_uuid, Get UUID/Version/Message Types, 2 vendor-support queries, Set EID, Get EID, a vendor message, a wrong-PEC Get UUID, a Get UUID response carrying another UUID) on 3 configurations (0, 3, 30 types): every sequence of length <= {} and BFS to fixpoint; oracle: reference endpoint on UUID/version/message-type answers and probes; non-trivial = histories of length >= 2 containing a state-changing event",
+        "message-type lists of every length 0..=30 x byte lanes x 3 backgrounds; UUID byte lanes x 4 backgrounds installed then queried; alphabet of 15 events (3 set_uuid, Get UUID/Version/Message Types, 2 vendor-support queries, Set EID, Get EID, a vendor message, a wrong-PEC Get UUID, a Get UUID response carrying another UUID, 2 encoder calls on the same context) on 3 configurations (0, 3, 30 types): every sequence of length <= {} and BFS to fixpoint; oracle: reference endpoint on UUID/version/message-type answers and probes; non-trivial = histories of length >= 2 containing a state-changing event",
         depth
     );
     run.bound("stateless_depth", depth as u64);
-    run.bound("alphabet", 13);
+    run.bound("alphabet", 15);
     for (k, cfg) in cfgs15().into_iter().enumerate() {
         let m = Machine { cfg: cfg.clone(), init: vec![], alphabet: sigma15(&cfg) };
         stateless(run, "C15", &format!("sigma15 on configuration {}", k), &m, depth, &c15_filter);
@@ -638,7 +641,16 @@ fn states12() -> Vec<(u8, Vec<Event>)> {
     vec![
         (1, vec![]),
         (2, vec![Event::Process(set_eid_req(SRC, DST, 0, 0x99))]),
-        (16, vec![Event::SetEidReq(0x11), Event::SetEidResp(0x22), Event::SetUuid(U1)]),
+        (
+            16,
+            vec![
+                Event::SetEidReq(0x11),
+                Event::SetEidResp(0x22),
+                Event::SetUuid(U1),
+                Event::Encode { call: EncCall::RespMsgTypes { cc: 0, types: vec![0xBB; 30] }, dst: 0x32 },
+                Event::Encode { call: EncCall::ReqResolveUuid { uuid: [0xDD; 16], h: 0xDD }, dst: 0x33 },
+            ],
+        ),
     ]
 }
 
